@@ -197,6 +197,18 @@ def framing(ctx, report):
             continue
         ops = [o for o in flat if isinstance(o, Op) and o.side == 'parse' and o.target is not None]
         lenkey = declared_length_key(ops, lenkey)
+        from ..codecs import EVALUATED_CODECS
+        if cname in EVALUATED_CODECS and lenkey and not [o for o in ops if o.key == lenkey]:
+            # no field of that name any more (one header word split arithmetically): every proper prefix of the evaluated
+            # frames has to raise NotEnoughData with the number of missing bytes (sa/codecs.py)
+            ev = EVALUATED_CODECS[cname](ctx)
+            if ev['evaluated']:
+                report.count('C04.R2', ev['runs'])
+                if 'parse' in ev['problems']:
+                    report.add('C04.R2', cons + '@codec', ev['problems']['parse'])
+                else:
+                    report.sample({'rule': 'C04.R2', 'class': cname, 'gate': 'evaluated: every proper prefix raises NotEnoughData(missing bytes)'}, 30)
+                continue
         length_ops = [o for o in ops if o.key == lenkey] if lenkey else []
         if lenkey and not length_ops:
             report.add('C04.R2', cons + '@length[%s]' % lenkey, 'declared length field %s is no longer read' % lenkey)
